@@ -338,5 +338,20 @@ PROPS["C17"] = {
              plain("unreach", "net", "TestUnreachable", timeout={"quick": 300, "thorough": 600})],
 }
 
+PROPS["C19"] = {
+    "id": "C19", "level": "exploration",
+    "rule": "generated histories of 1..14 ops on 1..4 real Clusters (fixed kind sets {player,room},{player},{room,npc},{}) joined by an in-memory Remoter that round-trips every message through "
+            "the proto serializer: activate(kind in {player,room,npc,ghost}, id 0..2, via any joined node, select function = k-th capable member by id), deactivate, cluster-spawn, join, leave; "
+            "membership is driven by snapshots.  Activate must return nil and spawn nothing for an id that is active or a kind nobody advertises; otherwise exactly one actor is spawned, on the "
+            "member the select function returned, and that PID is returned.  After every op, on every joined node, GetActiveByID of all 15 ids and GetActiveByKind of all 5 kinds must equal the "
+            "model (a joiner learns everything, deactivate removes everywhere and stops the actor, a leaver's activations disappear), and the number of producer calls must equal the model's.  "
+            "Non-trivial = the history has a remote activation and a leave or a deactivate.",
+    "technique": "model-based property testing (rapid) of activation histories on an in-memory multi-node cluster against a map model; FIFO requests through the agents as barriers",
+    "level_text": "Generated-history search against an exact model of the activation table on every node (quiescent histories).",
+    "level_note": "notifications are pushed synchronously into the destination inbox, so arrival orders across links are not permuted; a node that left never rejoins",
+    "assumptions": CLUSTER_ASSUME + ["the in-memory Remoter delivers every message immediately and in order; messages to a node that left are dropped"],
+    "legs": [rapid("act", "clusterp", "TestActivations", 1000, 20000, shards=(2, 12))],
+}
+
 # reasons for properties that are not claimed (kept current by hand)
 NA_REASONS = {}
